@@ -8,7 +8,7 @@ From ST Require Import Base.Outcome Mem.Heap Mem.Buffer Mem.BufferRun Mem.Buffer
   Mem.BufferHistory Mem.StringOps Mem.StringProofs Mem.ApiCoverage Gen.Consts Gen.Statics.
 Import ListNotations.
 
-(* a const member / free function (observer, or any operation producing a new string by NRVO, through a
+(* a const member / free function (observer, or any operation producing a new string by NRVO, through any number of temporaries, through a
    moved temporary buffer, through the validating constructor, as a copy, or empty) leaves the source's
    bytes, size and data pointer unchanged — whatever value it computes *)
 Theorem c04_const_frame : forall L, 1 <= L -> forall st s t src r,
@@ -77,6 +77,19 @@ Example c04_nonvacuous :
   let long := repeat 120%N 20 in
   let ts := [TNew 0 abc; TNew 1 long; TAssign 0 0; TAppend 0 0 (abc ++ abc); TFreshMoveAsg 2 0 (abc ++ abc);
              TCopyOf 3 1; TReads 1; TSetBytes 3 abc; TMoveAssign 1 3; TDel 3; TFreshNRVO 3 1 [98%N]; TDel 0; TDel 1; TDel 2; TDel 3] in
+  wf_tops sstore0 ts /\ fst (run_tops 16 ts store0) = map expected_result ts.
+Proof.
+  vm_compute. repeat split; try discriminate; try reflexivity; intros; try lia;
+  repeat match goal with k : nat |- _ => destruct k; try reflexivity; try lia end.
+Qed.
+
+(* a result built through temporaries (ST::format, hex / base64, UTF-16 / UTF-32 round trips, stream insertion followed
+   by to_string: Mem/StringOps.TFreshVia, any number of temporaries) is one of the const footprints too *)
+Example c04_nonvacuous_via_temporaries :
+  let abc := [97; 98; 99]%N in
+  let long := repeat 120%N 20 in
+  let ts := [TNew 0 long; TFreshVia 1 0 [long; abc] (long ++ long); TReads 0; TSetBytes 1 abc; TReads 0; TDel 1; TDel 0] in
+  is_const (TFreshVia 1 0 [long; abc] (long ++ long)) = true /\
   wf_tops sstore0 ts /\ fst (run_tops 16 ts store0) = map expected_result ts.
 Proof.
   vm_compute. repeat split; try discriminate; try reflexivity; intros; try lia;
